@@ -531,4 +531,50 @@ theorem end_silences_partial_five {w : World} (h : FullInv w) (p : Pid) (hp : (w
   obtain ⟨a, b, c, d⟩ := end_silences_partial h.all p hp e he hb
   exact ⟨a, b, c, d, h.intr.none_for p hp e he hb⟩
 
+/-! ### non-vacuity of the dispatch-level theorems: a complete run -/
+
+/-- the scenario world (three processes, one resource, start events pending) satisfies all the invariants … -/
+theorem scenario_fullInv : FullInv scenWorld := by
+  have hproc : ∀ n, scenWorld.proc (n + 3) = {} := fun n => by simp [scenWorld, World.proc, sched, schedule]
+  have hall : ∀ p, (scenWorld.proc p).held = [] ∧ (scenWorld.proc p).awaits = [] ∧ (scenWorld.proc p).waiters = [] ∧
+      (scenWorld.proc p).blocked = none := by
+    intro p
+    match p with
+    | 0 => decide
+    | 1 => decide
+    | 2 => decide
+    | n + 3 => rw [hproc]; exact ⟨rfl, rfl, rfl, rfl⟩
+  have hpend : ∀ e ∈ scenWorld.ev.pending, e.item.a = aStart := by decide
+  refine ⟨⟨?_, ?_, ?_, ?_⟩, ?_, ?_⟩
+  · intro r p
+    have hc : scenWorld.hcount p r = 0 := by unfold World.hcount; rw [(hall p).1]; rfl
+    have hh : scenWorld.holder r = none := by
+      match r with
+      | 0 => decide
+      | n + 1 => exact holder_none_of_no_res _ _ (by simp [scenWorld, sched, schedule])
+    rw [hc, hh]; rfl
+  · exact waitersInv_init _ (fun p => (hall p).2.2.1) (fun q p => by rw [(hall q).2.1]; simp)
+      (fun e he => by rw [hpend e he]; decide)
+  · intro p _; exact ⟨(hall p).2.1, (hall p).2.2.2, (hall p).1, fun _ => (hall p).2.2.1⟩
+  · intro e he hs; rw [hpend e he] at hs; exact absurd hs (by decide)
+  · refine ⟨by decide, ?_, ?_⟩
+    · intro pl h hph
+      have : scenWorld.ph pl = none := by simp [World.ph, scenWorld, sched, schedule]
+      rw [this] at hph; cases hph
+    · intro pl p hk
+      have : scenWorld.hk pl = [] := by simp [World.hk, World.ph, scenWorld, sched, schedule]
+      rw [this] at hk; cases hk
+  · intro e he hi; rw [hpend e he] at hi; exact absurd hi (by decide)
+
+/-- … hence so does every world of its run (an instance of `fullInv_runAll`) … -/
+theorem scenario_run_fullInv (fuel : Nat) : FullInv (runAll fuel scenWorld) := fullInv_runAll scenario_fullInv fuel
+
+/-- … and the run is not trivial: it ends without fault, all three processes have finished (process 2 with exit value 3),
+    nobody holds anything, the resource is free and no event is left -/
+theorem scenario_run_result :
+    (runAll 100 scenWorld).fault = none ∧
+    ((runAll 100 scenWorld).procs.map fun p => (p.status.toNat, p.exitVal, p.held.length))
+      = #[(2, 0, 0), (2, 0, 0), (2, 3, 0)] ∧
+    (runAll 100 scenWorld).holder 0 = none ∧ (runAll 100 scenWorld).ev.pending = [] := by decide +kernel
+
 end CimbaModel.Props.C09
